@@ -136,6 +136,24 @@ func replayC18(rc routingCase, o rs.Outcome) error {
 		}
 		return fmt.Errorf("CurlyRouter -> %s, RouterJSR311 -> %s", o.Key(), o2.Key())
 	}
+	if rc.Tier == "" {
+		return nil
+	}
+	// not reproduced alone: replay the requests the two containers had served before it
+	for _, sp := range commonSweeps(rc.Tier) {
+		if sp.Name == rc.Sweep && rc.ReqIndex < len(sp.Reqs) {
+			ca, cb := rs.Build(rc.Table, rs.BuildOpt{Router: rm.Curly}), rs.Build(rc.Table, rs.BuildOpt{Router: rm.JSR311})
+			var a, b rs.Outcome
+			for k := 0; k <= rc.ReqIndex; k++ {
+				a = ca.Do(sp.Reqs[k].HTTP(), h.NewRec(), false)
+				b = cb.Do(sp.Reqs[k].HTTP(), h.NewRec(), false)
+			}
+			fmt.Printf("after the %d requests served before it on the same containers: CurlyRouter -> %s, RouterJSR311 -> %s\n", rc.ReqIndex, a.Key(), b.Key())
+			if a.Key() != b.Key() {
+				return fmt.Errorf("CurlyRouter -> %s, RouterJSR311 -> %s (needs its history)", a.Key(), b.Key())
+			}
+		}
+	}
 	return nil
 }
 
@@ -172,11 +190,20 @@ func checkC18(run *h.Run) {
 				kc, kj := oc.Key(), oj.Key()
 				if kc != kj {
 					finding := c18Finding(p, path, oc, oj)
-					rc := routingCase{Sweep: sp.Name, Router: "curly", Table: t, Req: w.reqs[qi], Observed: oc, Other: oj}
+					rc := routingCase{Sweep: sp.Name, Router: "curly", Table: t, Req: w.reqs[qi], Observed: oc, Other: oj, Tier: run.Tier, ReqIndex: qi}
 					qi := qi
-					run.Violate("routers-disagree", finding, fmt.Sprintf("%v ; %v : CurlyRouter -> %s, RouterJSR311 -> %s", t, w.reqs[qi], kc, kj), rc, func() bool {
+					run.ViolateH("routers-disagree", finding, fmt.Sprintf("%v ; %v : CurlyRouter -> %s, RouterJSR311 -> %s", t, w.reqs[qi], kc, kj), rc, func() bool {
 						a := rs.Build(t, rs.BuildOpt{Router: rm.Curly}).Do(w.reqs[qi].HTTP(), h.NewRec(), false)
 						b := rs.Build(t, rs.BuildOpt{Router: rm.JSR311}).Do(w.reqs[qi].HTTP(), h.NewRec(), false)
+						return a.Key() != b.Key()
+					}, func() bool {
+						// with the requests the two containers served before it
+						ca, cb := rs.Build(t, rs.BuildOpt{Router: rm.Curly}), rs.Build(t, rs.BuildOpt{Router: rm.JSR311})
+						var a, b rs.Outcome
+						for k := 0; k <= qi; k++ {
+							a = ca.Do(w.reqs[k].HTTP(), h.NewRec(), false)
+							b = cb.Do(w.reqs[k].HTTP(), h.NewRec(), false)
+						}
 						return a.Key() != b.Key()
 					})
 				} else if nontriv%8191 == 1 {
